@@ -187,7 +187,9 @@ def run_case(spec, ctx):
     f = specs.features(E)
     rot_generic = False
     for n in rg.walk(E):
-        if n["t"] == "rotate":
+        if n["t"] == "rotate" and "euler" in n:
+            rot_generic = True
+        elif n["t"] == "rotate":
             a = n["angle"]
             if a["k"] != "const" or abs((a["v"][0] / (np.pi / 2)) - round(a["v"][0] / (np.pi / 2))) > 1e-3:
                 rot_generic = True
